@@ -367,6 +367,9 @@ func (e *Exec) callExternOrHavoc(s *State, f *Frame, key string, sig *types.Sign
 	if i := strings.LastIndexAny(key, ".:"); i >= 0 {
 		short = key[i+1:]
 	}
+	if i := strings.Index(short, "/"); i >= 0 {
+		short = short[:i] // "funcvalue:cb/3": call-site assertions name the variable, not the arity
+	}
 	e.atCallAsserts(s, f, key, short, args, pos, ikey)
 	if ext := e.w.externFor(e.fn, key); ext != nil {
 		e.applyContract(s, f, ext, sig, args, pos, ikey, setRes, resType, key)
